@@ -475,6 +475,9 @@ def run(chk: core.Check) -> int:
     cases = []
     for _ in range(n):
         ir = gen_case(rng)
+        for _p in ir["params"].values():  # dictionary-guided search: only active when a constant table of the code under test differs from the snapshot
+            if "doc" in _p:
+                _p["doc"] = core.spice(rng, _p["doc"])
         for style in STYLES:
             for et in (True, False):
                 for edd_e in (True, False):
